@@ -355,6 +355,39 @@ func (h *c11Run) listAndJudge(chain []string) []diskEnt {
 		c.Violation("list-not-exact", "the file list is not exactly the non-ignored entries of the folder (partials under their final name)")
 		return nil
 	}
+	// folder item counts = the folder's non-ignored entries
+	for _, e := range exp {
+		if !e.dir {
+			continue
+		}
+		sub, err := os.ReadDir(filepath.Join(dir, e.name))
+		if err != nil {
+			continue
+		}
+		want := 0
+		for _, de := range sub {
+			if !h.ignored(de.Name()) {
+				want++
+			}
+		}
+		for _, g := range got {
+			if bytes.Equal(g.Name, e.listed) && string(g.Type) == "fldr" && int(g.Size) != want {
+				// two entries may share a listed name (d and d.incomplete): accept if any folder entry of that name has the count
+				ok := false
+				for _, g2 := range got {
+					if bytes.Equal(g2.Name, e.listed) && int(g2.Size) == want {
+						ok = true
+					}
+				}
+				if !ok {
+					c.Note("folder", e.name)
+					c.Note("listed_count", g.Size)
+					c.Note("non_ignored_entries", want)
+					c.Violation("folder-count-wrong", "the item count shown for a folder is not the number of its non-ignored entries")
+				}
+			}
+		}
+	}
 	c.Nontrivial(fmt.Sprintf("list|%s|%s|%s", h.ig.tok, strings.Join(chain, "/"), strings.Join(es, ",")))
 	// size / type agreement and addressability for a few complete entries
 	r := c.R
@@ -733,7 +766,7 @@ func init() {
 			"dates in replies and in information forks are not compared (the model has no clock)",
 			"files larger than 4 GiB are not generated",
 		}
-		x.Add(&Family{Name: "histories", Quick: 140, Thor: 4000, Run: c11History})
+		x.Add(&Family{Name: "histories", Quick: 800, Thor: 16000, Run: c11History})
 		x.Add(&Family{Name: "macroman", Quick: 400, Thor: 20000, Run: func(c *Case) {
 			r := c.R
 			// decoder / encoder tables against golang.org/x/text, entry by entry on the first case, random strings otherwise
